@@ -417,7 +417,28 @@ func (e *Exec) intBin(op token.Token, x, y Int) Int {
 				}
 			}
 		}
-	case token.QUO:
+	case token.QUO, token.REM:
+		// narrow: a non-negative dividend below 2^31 divided by a positive constant is computed on 32 bits
+		if w == 64 && y.S == nil && xok && xl >= 0 && xh < 1<<31 && y.C > 0 && y.C < 1<<31 {
+			nx := e.intConv(x, 32, false)
+			r := e.intBin(op, nx, Int{W: 32, C: y.C})
+			return e.intConv(r, w, sg)
+		}
+		if op == token.REM {
+			if sg {
+				sop = "bvsrem"
+			} else {
+				sop = "bvurem"
+			}
+			if yok && yl > 0 {
+				if xok && xl >= 0 {
+					lo, hi, bnd = 0, min64(xh, yh-1), true
+				} else {
+					lo, hi, bnd = -(yh - 1), yh-1, true
+				}
+			}
+			break
+		}
 		if sg {
 			sop = "bvsdiv"
 		} else {
@@ -428,19 +449,6 @@ func (e *Exec) intBin(op token.Token, x, y Int) Int {
 				lo, hi, bnd = xl/yh, xh/yl, true
 			} else {
 				lo, hi, bnd = min64(xl/yl, xl/yh), max64(xh/yl, 0), true
-			}
-		}
-	case token.REM:
-		if sg {
-			sop = "bvsrem"
-		} else {
-			sop = "bvurem"
-		}
-		if yok && yl > 0 {
-			if xok && xl >= 0 {
-				lo, hi, bnd = 0, min64(xh, yh-1), true
-			} else {
-				lo, hi, bnd = -(yh - 1), yh-1, true
 			}
 		}
 	case token.AND:
